@@ -52,7 +52,7 @@ def run_one(sid, tier="quick", seeds=(1,)):
                 res["runs"].append(dict(property=pid, seed=seed, tier=tier, exit=p.returncode, violation=viol[:1],
                                         summary=p.stdout.strip().splitlines()[-1:] , stderr=p.stderr[-300:] if p.returncode == 2 else "",
                                         replay=replay))
-        res["caught"] = any(r["exit"] == 1 for r in res["runs"])
+        res["caught"] = any(r["exit"] == 1 and r["violation"] for r in res["runs"])
         res["caught_with_input"] = any(r["exit"] == 1 and r["violation"] and "no-failing-input-found" not in r["violation"][0] for r in res["runs"])
     finally:
         sh("git", "-C", "/repo", "worktree", "remove", "--force", wt)
